@@ -6,7 +6,7 @@ import itertools
 
 from .. import automata as A
 from .. import blocks, e1, impl, linelang, refmodel
-from ..chartgen import UNICODE_TRAPS, mk
+from ..chartgen import FORMAT_TRAPS, UNICODE_TRAPS, mk
 from ..linelang import BL
 
 ID = "C07"
@@ -230,7 +230,7 @@ def _tokens(ctx, kind):
                 line = "%s%s = S %d %s%s" % (lead, t, idx, ln, trail)
                 _token_case(ctx, order, line, "S", idx == 2, len(t) <= 8)
         else:
-            for word in ("solo", "soloend", "x", "a=b", '"q"', "é日♪", "[x]", "N", "two words", "tail ", "so\ufefflo", "x\u200by", "x\u00a0y", "\ufeffx") + tuple(w for w in UNICODE_TRAPS if " " not in w):
+            for word in ("solo", "soloend", "x", "a=b", '"q"', "é日♪", "[x]", "N", "two words", "tail ", "so\ufefflo", "x\u200by", "x\u00a0y", "\ufeffx") + tuple(w for w in UNICODE_TRAPS + FORMAT_TRAPS if " " not in w):
                 line = "%s%s = E %s%s" % (lead, t, word, trail)
                 _token_case(ctx, order, line, "E", " " not in word, len(t) <= 8)
 
